@@ -133,6 +133,7 @@ struct Thr {
     uint64_t cs[64];
     int csn;
     int atomic_depth;  // inside a shim critical section
+    int last_sched;    // index of the last scheduling point at which this thread was chosen (fair default choice)
 };
 
 enum ObjKind : uint8_t { OK_NONE = 0, OK_ATOMIC, OK_MUTEX, OK_CV, OK_PLAIN, OK_GENERIC, OK_CLOCK };
